@@ -142,7 +142,13 @@ func vpReadyCell(ro vpRawOpts) {
 	}
 	budget := uint64(l.maxApplyingEntsSize - l.applyingEntsSize)
 
+	has := rn.HasReady()
 	rd := rn.Ready()
+	// C15-W5: HasReady announces everything a Ready would hand out (otherwise the
+	// application never collects it), and announces nothing when there is nothing
+	something := rd.SoftState != nil || rd.HardState != nil || len(rd.Entries) > 0 || rd.Snapshot != nil || len(rd.CommittedEntries) > 0 || len(rd.Messages) > 0 || len(rd.ReadStates) > 0
+	vpAssert(vpImplies(something, has), "W5/has-ready-announces-everything-ready-hands-out")
+	vpAssert(vpImplies(has, something || len(rn.stepsOnAdvance) > 0), "W5/has-ready-only-when-there-is-something")
 
 	vpObserve("ready", uint64(len(rd.Entries)), uint64(len(rd.CommittedEntries)), uint64(len(rd.Messages)), vpB2U(rd.HardState != nil), vpB2U(rd.Snapshot != nil), vpB2U(rd.MustSync))
 	// the representation invariant holds right after Ready (before the
